@@ -13,7 +13,8 @@ def expect_callsign(codes):
 
 class C07(PropBase):
     id = "C07"
-    lean_modules = ["SqModel.Props.C07"]
+    lean_modules = ["SqModel.Props.C07", "SqModel.Proofs.Bridge"]
+    extractors = ["trans"]
     rule = ("every 6-bit code 0..63 in each of the 8 character positions (512 frames) plus random 48-bit strings, TC 1..4 x "
             "CA 0..7, as creating frame, after a DF11 and after an identification squitter with the same characters but another type code and category, -U/-R on/off; BDS 2,0 via DF20 and DF21 under capability 0..7 x -R, for rows with and without an earlier identification squitter. "
             "row.ais / row.category against the expectation computed from the generated codes and against the Lean spec "
